@@ -1023,5 +1023,25 @@ seed("c07-oversize-chunk-no-reset", "C07", "R-oversize-chunk-aborts", "conn.go",
 
 	if c.bdatStatus == nil && c.server.LMTP {""", "an oversize chunk is dropped but the transfer goes on: LAST completes a message with a hole")
 
+seed("c14-flags-in-one-switch", "C14", "R-set-options-rendered", "client.go",
+"""			return errors.New("smtp: server does not support REQUIRETLS")
+		}
+	}
+	if opts != nil && opts.UTF8 {""", """			return errors.New("smtp: server does not support REQUIRETLS")
+		}
+	} else if opts != nil && opts.UTF8 {""", "SMTPUTF8 dropped when REQUIRETLS is requested too")
+seed("c12-valueless-keyword-case", "C12", "R-cmd-gates-agree", "parse.go",
+"""			argMap[strings.ToUpper(m[0])] = \"\"""", """			argMap[m[0]] = \"\"""", "smtputf8 / requiretls in lower case miss their gate: 500 instead of 250/504")
+seed("c19-toolong-loop-continues", "C19", "R-toolong-close", "server.go",
+"""				c.writeResponse(500, EnhancedCode{5, 4, 0}, "Too long line, closing connection")
+				return nil""", """				c.writeResponse(500, EnhancedCode{5, 4, 0}, "Too long line, closing connection")
+				continue""", "loop goes on after a too long line: the sticky refusal answers 500 forever")
+seed("c20-listener-not-recorded", "C20", "R-close-effects", "server.go",
+"""	s.locker.Lock()
+	s.listeners = append(s.listeners, l)
+	s.locker.Unlock()
+
+	var tempDelay""", """	var tempDelay""", "Close cannot close the listener Serve accepts on")
+
 json.dump(S, open(os.path.join(os.path.dirname(os.path.abspath(__file__)), "bank.json"), "w"), indent=1)
 print(len(S), "seeds")
